@@ -402,6 +402,7 @@ def _build_registry():
           "bits:176", "bits:7", "bits:9", "bool")
     E("ShortLinkControl(bitarray fields)", lambda crc, a1, a2: _slc_ctor(crc, a1, a2), "bits:8", "bits:8", "bits:8")
     E("DataHeader(bitarray crc)", lambda crc, a: _dh_ctor(crc, a), "bits:16", "int:0:127")
+    E("DataHeader(bitarray crc: right value, mask variants)", lambda v, a: _dh_ctor_check_variants(v, a), "int:0:15", "int:0:127")
     E("MBXML.from_bytes->as_bytes", lambda d: [L("motorola.mbxml:MBXML").as_bytes(x) for x in L("motorola.mbxml:MBXML").from_bytes(d)], "vecm")
     E("MBXML.write_uintvar", lambda a: L("motorola.mbxml:MBXML").write_uintvar(a), "int:0:4294967295")
     E("MBXML.read_uintvar", lambda d: L("motorola.mbxml:MBXML").read_uintvar(d, 0), "bytes:1-6")
@@ -445,6 +446,10 @@ def _build_registry():
     E("numpy_array_to_int", lambda a: L(U + ":numpy_array_to_int")(a), "np:1-40")
 
 
+class ArgumentObjectChanged(Exception):
+    """raised by composite entries when a library call changed an object (or buffer) that was passed to it as an argument"""
+
+
 RECON_NEVER_OMIT = set()  # (class name, parameter) pairs whose default is never the thing compared; empty since D17 was repaired
 RECON_ALIASES = {"dpf": "data_packet_format", "flco": "full_link_control_opcode", "fid": "feature_set_id", "opcode": "specific_service"}
 
@@ -473,7 +478,19 @@ def _reconstruct(obj, omit):
             if (omit >> (bit - 1)) & 1:
                 continue
         kw[name] = getattr(obj, attr)
-    return [cls(**kw), sorted(kw)]
+    before = {k: core.dumps(canon(v)) for k, v in kw.items()}
+    new = cls(**kw)
+    for m in ("as_bits", "as_bytes"):
+        if hasattr(new, m):
+            try:
+                getattr(new, m)()
+            except Exception:
+                pass
+    changed = sorted(k for k, v in kw.items() if core.dumps(canon(v)) != before[k])
+    if changed:
+        # the constructor or a serialiser changed an object it was GIVEN (an address object, a buffer, an option list the caller still holds)
+        raise ArgumentObjectChanged(f"{cls.__name__}: argument(s) {changed} changed by construction / serialisation")
+    return [new, sorted(kw)]
 
 
 def _lrrp_rebuild(d, is_request):
@@ -492,6 +509,74 @@ def _lrrp_rebuild(d, is_request):
             new.parts.append(t)
         out.append(new)
     return out
+
+
+def _mutate_owned(x, depth=0, seen=None, done=None):
+    """what an application does with an object a library call returned to it, using ONLY the library's own mutator methods (`add_*` / `set_*` found on
+    the object and on the library objects it holds: HSTRPOptions.add_option, Burst.set_sequence_no, FirstHeader.set_has_more_headers, ...), with
+    arguments made up from the parameter annotations.  The history stays a sequence of library calls (direct writes into returned containers would
+    be application code, which the property does not speak about, see DESIGN 8.3).  Returns the number of mutator calls made"""
+    import inspect
+    import typing
+
+    from bitarray import bitarray
+
+    seen = set() if seen is None else seen
+    done = [0] if done is None else done
+    if depth > 3 or id(x) in seen or x is None or isinstance(x, (enum.Enum, type, str, bytes, int, float, bool)):
+        return done[0]
+    seen.add(id(x))
+    if isinstance(x, (list, tuple)):
+        for it in list(x)[:8]:
+            _mutate_owned(it, depth + 1, seen, done)
+        return done[0]
+    if not hasattr(x, "__dict__") or not type(x).__module__.startswith("okdmr."):
+        return done[0]
+
+    def made_up(ann):
+        if ann is inspect.Parameter.empty:
+            return None
+        if isinstance(ann, type) and issubclass(ann, enum.Enum):
+            return list(ann)[-1]
+        if ann is bytes:
+            return b"\x00\x01\x86\x9f"
+        if ann is bool:
+            return True
+        if ann is int:
+            return 7
+        if ann is str:
+            return "x"
+        if ann is bitarray:
+            return bitarray("1010")
+        return None
+
+    for name in sorted(dir(type(x))):
+        if not name.startswith(("add_", "set_")) or isinstance(inspect.getattr_static(type(x), name, None), (staticmethod, classmethod)):
+            continue
+        m = getattr(x, name, None)
+        if not callable(m):
+            continue
+        try:
+            hints = typing.get_type_hints(m)
+        except Exception:
+            hints = {}
+        args, ok = [], True
+        for pn, p in inspect.signature(m).parameters.items():
+            v = made_up(hints.get(pn, p.annotation))
+            if v is None:
+                if p.default is inspect.Parameter.empty:
+                    ok = False
+                break
+            args.append(v)
+        if ok:
+            try:
+                m(*args)
+                done[0] += 1
+            except Exception:
+                pass
+    for it in list(vars(x).values()):
+        _mutate_owned(it, depth + 1, seen, done)
+    return done[0]
 
 
 def _fresh_rrs(d):
@@ -575,6 +660,23 @@ def _slc_ctor(crc, a1, a2):
     SLC = L("etsi.layer2.pdu.short_link_control:ShortLinkControl")
     A = L("etsi.layer3.elements.activity_id:ActivityID")
     return SLC(slco=L("etsi.layer2.elements.slcos:SLCOs").ActivityUpdate, crc_8bit=crc, ts1_activity_id=list(A)[1], ts2_activity_id=list(A)[2], ts1_address=a1, ts2_address=a2)
+
+
+def _dh_ctor_check_variants(variant, a):
+    """DataHeader built with a caller-owned bitarray check value that is the right one, or the right one with one of the standard's data-type masks (or
+    a pair of them) applied on top -- the values a sender with the wrong mask produces; the caller's buffer must come back unchanged"""
+    from bitarray.util import int2ba
+
+    ms = [0x6969, 0xA5A5, 0xAAAA, 0xCCCC, 0x3333]
+    vals = [0] + ms + sorted({x ^ y for x in ms for y in ms if x != y})
+    right = _dh_ctor(None, a).crc
+    crc = right ^ int2ba(vals[variant % len(vals)], length=16)
+    was = crc.to01()
+    h = _dh_ctor(crc, a)
+    h.as_bits()
+    if crc.to01() != was:
+        raise ArgumentObjectChanged("DataHeader changed the caller's crc bitarray")
+    return h
 
 
 def _dh_ctor(crc, a):
@@ -762,6 +864,12 @@ class ArgGen:
                 vals = [m.value if isinstance(m.value, int) else int.from_bytes(m.value, "big") for m in L(path)]
             except Exception:
                 return None
+            if max(vals) < 256:
+                # services whose opcode enumeration is the low octet only (TMP 0x80 0xA1, RRS 0x00 0x03)
+                if b[off + 2] in vals:
+                    b[off + 2] = self.r.choice(vals)
+                    return b.hex()
+                continue
             cur_be, cur_le = int.from_bytes(b[off + 1:off + 3], "big"), int.from_bytes(b[off + 1:off + 3], "little")
             if cur_be in vals or cur_le in vals:
                 order = "big" if cur_be in vals else "little"
@@ -773,8 +881,13 @@ class ArgGen:
         c = [v for v in self.vec if any(v.startswith(p) for p in prefixes)]
         if not c or self.r.random() < 0.08:
             c = self.vec
-        v = self.r.choice(c)
-        if self.r.random() < 0.25:
+        # message families first (by leading octet: service / protocol), then a vector of that family: a family with two captures gets as many draws
+        # as one with fifty
+        fam = {}
+        for x in c:
+            fam.setdefault(x[:2], []).append(x)
+        v = self.r.choice(fam[self.r.choice(sorted(fam))])
+        if self.r.random() < 0.35:
             v = self.hdap_other_opcode(v) or v
         return self.flip_hex(v, self.r.choice([0, 0, 0, 1, 2]))
 
@@ -1224,6 +1337,7 @@ class C19(Check):
             n = k.choice([300, 560])
         ops = []
         rb_rate = k.choice([0.0, 0.1, 0.1, 0.6])  # how often this run's callers re-use their argument buffer objects
+        own_rate = k.choice([0.0, 0.05, 0.05, 0.3])  # how often they change, in place, what a call handed back to them (it is theirs)
         pool = []  # recent (entry, args) so that the same call is repeated after other calls
         for _ in range(n):
             if pool and w.random() < (0.25 if not scale else 0.03):
@@ -1243,6 +1357,8 @@ class C19(Check):
                 op["entropy_reseed"] = f.getrandbits(32)
             if f.random() < rb_rate:
                 op["rb"] = 1
+            elif f.random() < own_rate:
+                op["own"] = 1
             ops.append(op)
             sib = self._checksum_sibling(args, w) if w.random() < 0.12 else None
             if sib is not None:
@@ -1361,7 +1477,10 @@ class C19(Check):
             r0 = seams.reads
             kept = []
             got = outcome_of(ent["fn"], args, kept)
-            if kept and len(held) < 40 and got[0] == "ok":
+            own_it = bool(kept and op.get("own") and got[0] == "ok")
+            if own_it:
+                pass  # (changed by its owner further down, after the argument buffers were compared; not watched by the held-results rule)
+            elif kept and len(held) < 40 and got[0] == "ok":
                 held_args[i] = list(args)
                 held.append((i, name, kept[0], core.dumps(canon(kept[0]))))  # the caller keeps what it got; it is looked at again after the history
             if seams.reads != r0:
@@ -1375,10 +1494,22 @@ class C19(Check):
                 earlier = sorted(set(prev_entries))[-6:]
                 res.violate("C19.history-dependent-result", name, f"call #{i} {name}({core.dumps(op['args'])[:160]}) returned {core.dumps(got)[:220]} in this history, "
                             f"but {core.dumps(want)[:220]} when evaluated alone in a pristine process (earlier entry points in this process: {len(set(prev_entries))})", at=i)
+            if got[:2] == ["raised", "ArgumentObjectChanged"]:
+                res.violate("C19.argument-buffer-modified", name, f"call #{i} {name}({core.dumps(op['args'])[:160]}): a library call changed an object it was given as an argument "
+                            f"(reported by the composite entry point itself)", at=i)
             if not ent["exempt"]:
                 after = snapshot(args)
                 if after != before:
                     res.violate("C19.argument-buffer-modified", name, f"call #{i} {name} changed its argument: {core.dumps(before)[:160]} -> {core.dumps(after)[:160]}", at=i)
+            if own_it:
+                # the caller goes on working with what it was handed, through the library's own mutators (options added, sequence numbers set ...):
+                # nothing a later call returns may depend on that
+                try:
+                    nmut = _mutate_owned(kept[0])
+                except Exception:
+                    nmut = 0
+                if nmut:
+                    res.fault("returned_object_changed_through_library_mutators", nmut)
             for p in set(prev_entries):
                 res["cov"].add(p + " -> " + name)
             if prev_entries and prev_entries[-1] == name:
